@@ -428,7 +428,7 @@ void world_collect(world_t *w, int side)
     unsigned char *out;
     int32 n;
     int guard = 0;
-    if (!s->ssl)
+    if (!s->ssl || w->no_autocollect)
     {
         return;
     }
